@@ -124,6 +124,8 @@ func (pi *PathIterator[_]) ReplacePart(newPath string) bool {
 
 	// If the old path before the current part is different, the iterator must be reset.
 	if pi.start >= len(pi.path) || pi.path[:pi.start] != oldPath[:pi.start] {
+		// the new path may be on another volume.
+		pi.volumeNameLen = VolumeNameLen(vfs, pi.path)
 		pi.Reset()
 
 		return true
